@@ -783,11 +783,13 @@ theorem dispatchKeys_prev (env : Env) (c : Cfg) : ∀ (ks : List Key) (n : Node)
 /-! ### a new bundle: `NotifyNewBundle` books the previous node -/
 
 /-- The conditions under which the algorithm records the previous node of a new bundle: spray-and-wait
-only for bundles of other nodes, binary spray only with a BinarySprayBlock (known finding). -/
+only for bundles of other nodes, binary spray with a BinarySprayBlock or — since the repair of
+`BinarySpray.NotifyNewBundle` — for a bundle of another node without one. (What is excluded: a bundle of
+this node that comes back from the network.) -/
 def seedsPrev (c : Cfg) (b : Bundle) : Prop :=
   match c.algo with
   | .spray => hasEndpoint c b.src = false
-  | .binarySpray => b.bsCopies.isSome = true
+  | .binarySpray => b.bsCopies.isSome = true ∨ hasEndpoint c b.src = false
   | _ => True
 
 theorem notifyNew_booked (k : Key) (b : Bundle) (n : Node) (it : Item) (hg : n.store.get k = some it)
@@ -808,7 +810,9 @@ theorem notifyNew_booked (k : Key) (b : Bundle) (n : Node) (it : Item) (hg : n.s
   | binarySpray =>
     simp only [ha] at hs
     cases hbs : b.bsCopies with
-    | none => simp [hbs] at hs
+    | none =>
+      have hsrc : hasEndpoint n.cfg b.src = false := by simpa [hbs] using hs
+      simp [sentL, ha, hsrc, lookupMeta_setMeta_eq, he]
     | some cp => simp [sentL, ha, lookupMeta_setMeta_eq, he]
   | prophet =>
     simp only [he]
